@@ -1,24 +1,32 @@
 //! C32: `rten_generate::Generator` driven through random operation histories against a
 //! mock `rten_generate::model::Model` that logs every `run` call.
 //!
-//! Request line: `kv=<0|1> cfg=<mock layout, ignored by the model> <op> …` with ops
+//! Request line: `kv=<0|1> cfg=<mock layout> <op> …` with ops
 //! `W:<csv>` with_prompt, `A:<csv>` append_prompt, `C` clear_prompt, `P` process_prompt,
-//! `N:<tok>` next (scripted sampler returns `tok`), `E` next with a filter removing all logits.
+//! `N:<tok>` next (scripted sampler returns `tok`), `E` next with a filter removing all logits,
+//! `PF` / `NF` process_prompt / next where the mock's `Model::run` returns an error.
+//! `api <names>`: the public methods of `Generator` found in the source under test.
 //!
 //! Answer: one section per op joined by ` | `:
 //! `<calls> <filter> <outcome> in=<prompt()> prev=<prev_tokens()> kv=<kv_cache_len()|->`,
-//! `<calls>` = `R(<input_ids>@<first position>;c<cache id>:<len>;L<logits requested>)` per
-//! `Model::run` call made during the op (or `-`).
+//! `<calls>` = `R(<input_ids>@<first position>;c<cache id>:<len>;L<logits requested>;m<mask
+//! length>;u<use_cache_branch>;e<encoder cache id>;<ok|FAIL>)` per `Model::run` call made
+//! during the op (or `-`).
 //!
 //! Independent oracle (PROPFAIL), evaluated on the mock's log and the generator's getters:
 //!  T1 (KV) position ids == cache positions == `fed_so_far ..`, attention mask covers
-//!     `0..end`; the call receives exactly the tokens pending according to the script
-//!     (reference bookkeeping: a list of pending tokens with a "fresh" flag); nothing stays pending;
+//!     `0..end`, `use_cache_branch` == (start != 0); the call receives exactly the tokens
+//!     pending according to the script (reference bookkeeping: a list of pending tokens with a
+//!     "fresh" flag); nothing stays pending after a successful run, everything after a failed one;
 //!  T2 every KV-cache input tensor equals, element for element, the tensor the mock returned
-//!     from the previous call for that slot (empty on the first call);
-//!  T3 `prev_tokens()` == every token submitted to or produced by the model, in order, once
-//!     (reference history; when all token values of a history are distinct it is recomputed
-//!     from the observed events alone as "order of first occurrence").
+//!     from the previous call for that slot (empty on the first call); encoder caches equal the
+//!     last non-empty tensor the mock returned.  After a failed run the documented behaviour
+//!     (no self-attention cache supplied) is checked instead — it is not a property failure
+//!     because failing models are outside the property's quantifier;
+//!  T3 `prev_tokens()` == every token submitted (successfully) to or produced by the model, in
+//!     order, once (reference history; when all token values of a history are distinct it is
+//!     recomputed from the observed events alone as "order of first occurrence");
+//!  T7 (no KV cache, nothing discarded) the tokens fed == `prev_tokens()` as recorded by the call.
 use hcommon::{Args, Out, Rng};
 use rten::{Dimension, NodeId, RunOptions, Value, ValueOrView};
 use rten_generate::filter::LogitsFilter;
@@ -41,6 +49,8 @@ enum Op {
     P,
     N(u32),
     E,
+    PF,
+    NF,
 }
 
 fn csv(xs: &[u32]) -> String {
@@ -56,11 +66,13 @@ impl Op {
             Op::P => "P".into(),
             Op::N(t) => format!("N:{t}"),
             Op::E => "E".into(),
+            Op::PF => "PF".into(),
+            Op::NF => "NF".into(),
         }
     }
 }
 
-/// MockLayout of the mock model.
+/// Layout of the mock model.
 #[derive(Clone, Copy, Debug)]
 struct MockLayout {
     kv: bool,
@@ -73,18 +85,21 @@ struct MockLayout {
     /// optional inputs present in the model
     has_attn: bool,
     has_cache_pos: bool,
+    /// "merged" encoder-decoder layout: `.decoder.`/`.encoder.` caches + `use_cache_branch`
+    enc: bool,
 }
 
 impl MockLayout {
     fn show(&self) -> String {
         format!(
-            "cfg=L{}D{}H{}cap{}a{}p{}",
+            "cfg=L{}D{}H{}cap{}a{}p{}e{}",
             self.layers,
             if self.dims4 { 4 } else { 3 },
             self.heads,
             self.cap.map(|c| c.to_string()).unwrap_or("-".into()),
             self.has_attn as u8,
-            self.has_cache_pos as u8
+            self.has_cache_pos as u8,
+            self.enc as u8
         )
     }
 }
@@ -94,28 +109,40 @@ type CacheContent = Vec<(f32, f32)>;
 
 #[derive(Clone, Debug, Default)]
 struct CallLog {
+    ok: bool,
     toks: Vec<u32>,
     pos_ids: Vec<i32>,
     cache_pos: Option<Vec<i32>>,
     attn_len: Option<usize>,
+    flag: Option<i32>,
     /// per slot: `None` if the input was not supplied; `Err` if heads/batch disagree
     caches_in: Vec<Option<Result<CacheContent, String>>>,
+    /// per slot: what the mock returned (`None` for a failed call)
     caches_out: Vec<CacheContent>,
     logits: bool,
     problems: Vec<String>,
+}
+
+struct Slot {
+    input: NodeId,
+    output: NodeId,
+    encoder: bool,
 }
 
 struct Mock {
     lay: MockLayout,
     nodes: Vec<NodeInfo>,
     inputs: Vec<NodeId>,
-    slots: Vec<(NodeId, NodeId)>,
+    slots: Vec<Slot>,
     logits_id: NodeId,
     log: RefCell<Vec<CallLog>>,
     calls: Cell<u32>,
+    fail_next: Cell<bool>,
 }
 
 const VOCAB: usize = 3;
+/// sequence length of the encoder caches the mock returns
+const ENC_LEN: usize = 3;
 
 impl Mock {
     fn new(lay: MockLayout) -> Mock {
@@ -144,14 +171,29 @@ impl Mock {
                 Dimension::Fixed(2),
             ]
         };
-        let mut slot_names = vec![];
+        let mut slot_names: Vec<(String, String, bool)> = vec![];
         if lay.kv {
             for l in 0..lay.layers {
-                for kind in ["key", "value"] {
-                    in_nodes.push(NodeInfo::from_name_shape(&format!("past_key_values.{l}.{kind}"), &dims));
-                    out_nodes.push(NodeInfo::from_name_shape(&format!("present.{l}.{kind}"), &dims));
-                    slot_names.push((format!("past_key_values.{l}.{kind}"), format!("present.{l}.{kind}")));
+                let kinds: Vec<(String, bool)> = if lay.enc {
+                    vec![
+                        ("decoder.key".into(), false),
+                        ("decoder.value".into(), false),
+                        ("encoder.key".into(), true),
+                        ("encoder.value".into(), true),
+                    ]
+                } else {
+                    vec![("key".into(), false), ("value".into(), false)]
+                };
+                for (kind, encoder) in kinds {
+                    let i = format!("past_key_values.{l}.{kind}");
+                    let o = format!("present.{l}.{kind}");
+                    in_nodes.push(NodeInfo::from_name_shape(&i, &dims));
+                    out_nodes.push(NodeInfo::from_name_shape(&o, &dims));
+                    slot_names.push((i, o, encoder));
                 }
+            }
+            if lay.enc {
+                in_nodes.push(NodeInfo::from_name_shape("use_cache_branch", &[]));
             }
         }
         let n_in = in_nodes.len();
@@ -160,9 +202,21 @@ impl Mock {
         let find = |nodes: &Vec<NodeInfo>, n: &str| {
             NodeId::from_u32(nodes.iter().position(|x| x.name() == n).unwrap() as u32)
         };
-        let slots = slot_names.iter().map(|(a, b)| (find(&nodes, a), find(&nodes, b))).collect();
+        let slots = slot_names
+            .iter()
+            .map(|(a, b, e)| Slot { input: find(&nodes, a), output: find(&nodes, b), encoder: *e })
+            .collect();
         let logits_id = find(&nodes, "logits");
-        Mock { lay, nodes, inputs, slots, logits_id, log: RefCell::new(vec![]), calls: Cell::new(0) }
+        Mock {
+            lay,
+            nodes,
+            inputs,
+            slots,
+            logits_id,
+            log: RefCell::new(vec![]),
+            calls: Cell::new(0),
+            fail_next: Cell::new(false),
+        }
     }
 
     fn decode_cache(&self, t: &Tensor<f32>) -> Result<CacheContent, String> {
@@ -259,50 +313,69 @@ impl Model for Mock {
             }
             _ => lg.problems.push("input_ids-missing".into()),
         }
-        match get("position_ids").and_then(i32s) {
-            Some(p) => lg.pos_ids = p,
-            None => lg.problems.push("position_ids-missing".into()),
+        match get("position_ids") {
+            Some(v @ Value::Int32Tensor(t)) if t.ndim() == 2 && t.size(0) == 1 => lg.pos_ids = i32s(v).unwrap(),
+            _ => lg.problems.push("position_ids-bad".into()),
         }
         if self.lay.has_cache_pos {
-            lg.cache_pos = get("cache_position").and_then(i32s);
-            if lg.cache_pos.is_none() {
-                lg.problems.push("cache_position-missing".into());
+            match get("cache_position") {
+                Some(v @ Value::Int32Tensor(t)) if t.ndim() == 1 => lg.cache_pos = i32s(v),
+                _ => lg.problems.push("cache_position-bad".into()),
             }
         }
         if self.lay.has_attn {
             match get("attention_mask") {
-                Some(Value::Int32Tensor(t)) if t.ndim() == 2 && t.iter().all(|x| *x == 1) => {
+                Some(Value::Int32Tensor(t)) if t.ndim() == 2 && t.size(0) == 1 && t.iter().all(|x| *x == 1) => {
                     lg.attn_len = Some(t.size(1))
                 }
                 _ => lg.problems.push("attention_mask-bad".into()),
             }
         }
-        for (in_id, _) in self.slots.iter() {
-            let v = owned.iter().find(|(i, _)| i == in_id).map(|(_, v)| v);
+        if self.lay.kv && self.lay.enc {
+            match get("use_cache_branch") {
+                Some(Value::Int32Tensor(t)) if t.ndim() == 0 => lg.flag = t.iter().next().copied(),
+                _ => lg.problems.push("use_cache_branch-bad".into()),
+            }
+        }
+        for slot in self.slots.iter() {
+            let v = owned.iter().find(|(i, _)| *i == slot.input).map(|(_, v)| v);
             lg.caches_in.push(match v {
                 Some(Value::FloatTensor(t)) => Some(self.decode_cache(t)),
                 Some(_) => Some(Err("dtype".into())),
                 None => None,
             });
         }
-        // Returned caches: old entries keep their token marker and are re-stamped with this
-        // call's number (so that every returned tensor is distinguishable), new entries appended.
-        for (slot, cin) in lg.caches_in.iter().enumerate() {
-            let stamp = (call_no * 16 + slot as u32) as f32;
-            let mut c: CacheContent = match cin {
-                Some(Ok(c)) => c.iter().map(|(t, _)| (*t, stamp)).collect(),
-                _ => vec![],
-            };
-            c.extend(lg.toks.iter().map(|t| ((*t % 1024) as f32, stamp)));
-            lg.caches_out.push(c);
+        lg.logits = outputs.contains(&self.logits_id);
+        if self.fail_next.replace(false) {
+            lg.ok = false;
+            self.log.borrow_mut().push(lg);
+            return Err("mock model failure".into());
+        }
+        lg.ok = true;
+        // Returned self-attention caches: old entries keep their token marker and are re-stamped
+        // with this call's number (every returned tensor is distinguishable), new entries
+        // appended.  Encoder caches: a fresh tensor when `use_cache_branch` is 0 (first run of
+        // an Optimum merged decoder), a dummy empty tensor otherwise.
+        for (si, slot) in self.slots.iter().enumerate() {
+            let stamp = (call_no * 16 + si as u32) as f32;
+            if slot.encoder {
+                let c: CacheContent = if lg.flag == Some(0) { vec![(7.0, stamp); ENC_LEN] } else { vec![] };
+                lg.caches_out.push(c);
+            } else {
+                let mut c: CacheContent = match &lg.caches_in[si] {
+                    Some(Ok(c)) => c.iter().map(|(t, _)| (*t, stamp)).collect(),
+                    _ => vec![],
+                };
+                c.extend(lg.toks.iter().map(|t| ((*t % 1024) as f32, stamp)));
+                lg.caches_out.push(c);
+            }
         }
         let mut result = vec![];
         for id in outputs {
             if *id == self.logits_id {
-                lg.logits = true;
                 result.push(Value::FloatTensor(NdTensor::<f32, 3>::zeros([1, lg.toks.len(), VOCAB]).into()));
-            } else if let Some(slot) = self.slots.iter().position(|(_, o)| o == id) {
-                result.push(self.encode_cache(&lg.caches_out[slot]));
+            } else if let Some(si) = self.slots.iter().position(|s| s.output == *id) {
+                result.push(self.encode_cache(&lg.caches_out[si]));
             } else {
                 lg.problems.push(format!("unknown-output-{}", id.as_u32()));
                 result.push(Value::FloatTensor(Tensor::zeros(&[0])));
@@ -343,42 +416,69 @@ impl LogitsFilter for ScriptFilter {
     }
 }
 
-/// Canonical `c<id>:<len>` for the caches handed to one call.
-fn show_cache_in(lay: &MockLayout, lg: &CallLog) -> String {
-    if !lay.kv {
-        return "c-".into();
-    }
+/// `(id, len)` of a group of cache tensors that must all carry the same stamp.
+fn cache_id(caches: &[(usize, &Option<Result<CacheContent, String>>)]) -> Result<(u32, usize), String> {
     let mut id_len: Option<(u32, usize)> = None;
-    for (slot, c) in lg.caches_in.iter().enumerate() {
+    for (slot, c) in caches {
         let c = match c {
-            None => return "cMISSING".into(),
-            Some(Err(e)) => return format!("cBAD[{e}]"),
+            None => return Err("cMISSING".into()),
+            Some(Err(e)) => return Err(format!("cBAD[{e}]")),
             Some(Ok(c)) => c,
         };
         let this = if c.is_empty() {
             (0, 0)
         } else {
             let st = c[0].1 as u32;
-            if c.iter().any(|e| e.1 as u32 != st) || st % 16 != slot as u32 {
-                return "cMIXED".into();
+            if c.iter().any(|e| e.1 as u32 != st) || st % 16 != *slot as u32 {
+                return Err("cMIXED".into());
             }
             (st / 16, c.len())
         };
         match id_len {
             None => id_len = Some(this),
-            Some(x) if x != this => return "cMIXED".into(),
+            Some(x) if x != this => return Err("cMIXED".into()),
             _ => {}
         }
     }
-    let (id, len) = id_len.unwrap_or((0, 0));
-    format!("c{id}:{len}")
+    Ok(id_len.unwrap_or((0, 0)))
 }
 
-fn show_call(lay: &MockLayout, lg: &CallLog) -> String {
+fn show_call(mock: &Mock, lg: &CallLog) -> String {
+    let lay = &mock.lay;
     // With no token fed the position range is empty and the start is not observable from
     // the call alone (the oracle still checks the attention-mask length): printed as `_`.
     let start = lg.pos_ids.first().map(|p| p.to_string()).unwrap_or("_".into());
-    let mut s = format!("R({}@{};{};L{})", csv(&lg.toks), start, show_cache_in(lay, lg), lg.logits as u8);
+    let dec: Vec<_> = mock.slots.iter().enumerate().filter(|(_, s)| !s.encoder).map(|(i, _)| (i, &lg.caches_in[i])).collect();
+    let enc: Vec<_> = mock.slots.iter().enumerate().filter(|(_, s)| s.encoder).map(|(i, _)| (i, &lg.caches_in[i])).collect();
+    let cache = if !lay.kv {
+        "c-".to_string()
+    } else {
+        match cache_id(&dec) {
+            Ok((id, len)) => format!("c{id}:{len}"),
+            Err(e) => e,
+        }
+    };
+    let e = if lay.kv && lay.enc {
+        match cache_id(&enc) {
+            Ok((id, _)) => id.to_string(),
+            Err(e) => e,
+        }
+    } else {
+        "-".to_string()
+    };
+    let m = lg.attn_len.map(|n| n.to_string()).unwrap_or("-".into());
+    let u = if lay.kv && lay.enc { lg.flag.map(|f| f.to_string()).unwrap_or("?".into()) } else { "-".into() };
+    let mut s = format!(
+        "R({}@{};{};L{};m{};u{};e{};{})",
+        csv(&lg.toks),
+        start,
+        cache,
+        lg.logits as u8,
+        m,
+        u,
+        e,
+        if lg.ok { "ok" } else { "FAIL" }
+    );
     if !lg.problems.is_empty() {
         s += &format!("!{}", lg.problems.join("+"));
     }
@@ -390,12 +490,20 @@ fn show_call(lay: &MockLayout, lg: &CallLog) -> String {
 struct Reference {
     pend: Vec<(u32, bool)>,
     hist: Vec<u32>,
+    /// tokens fed by successful calls
     fed_total: usize,
+    /// tokens in the self-attention cache the generator should hold (`None`: lost)
+    cache_len: Option<usize>,
+    /// a `clear_prompt`, or a `with_prompt` after the first operation, happened
+    discarded: bool,
+    /// a run has failed somewhere in the history
+    had_failure: bool,
 }
 
 struct CaseResult {
     answer: String,
     fail: Option<String>,
+    observed_failure_recovery: bool,
 }
 
 fn run_case(lay: MockLayout, ops: &[Op], distinct: bool) -> CaseResult {
@@ -406,7 +514,7 @@ fn run_case(lay: MockLayout, ops: &[Op], distinct: bool) -> CaseResult {
     let cfg = GeneratorConfig { model_inputs: ModelInputsConfig::default(), kv_cache_capacity: lay.cap };
     let generator = match Generator::from_model_config(&mock, cfg) {
         Ok(g) => g,
-        Err(e) => return CaseResult { answer: format!("init-error {e}"), fail: None },
+        Err(e) => return CaseResult { answer: format!("init-error {e}"), fail: None, observed_failure_recovery: false },
     };
     let mut generator = Some(
         generator
@@ -416,8 +524,10 @@ fn run_case(lay: MockLayout, ops: &[Op], distinct: bool) -> CaseResult {
 
     let mut sections = vec![];
     let mut fail: Option<String> = None;
-    let mut rf = Reference::default();
-    let mut last_out: Option<Vec<CacheContent>> = None;
+    let mut rf = Reference { cache_len: Some(0), ..Default::default() };
+    let mut last_out: Option<Vec<CacheContent>> = None; // per slot, decoder slots meaningful
+    let mut last_enc_out: Option<Vec<CacheContent>> = None; // per slot, encoder slots meaningful
+    let mut recovered = false;
     // events observed on the implementation, for the first-occurrence form of T3
     let mut first_seen: Vec<u32> = vec![];
     let note = |v: &mut Vec<u32>, t: u32| {
@@ -430,6 +540,7 @@ fn run_case(lay: MockLayout, ops: &[Op], distinct: bool) -> CaseResult {
         let log_before = mock.log.borrow().len();
         let seen_before = seen.borrow().len();
         let pend_before: Vec<u32> = rf.pend.iter().map(|x| x.0).collect();
+        mock.fail_next.set(matches!(op, Op::PF | Op::NF));
         let outcome: String = if let Op::W(p) = op {
             let g = generator.take().unwrap();
             match hcommon::catch(move || g.with_prompt(p)) {
@@ -445,6 +556,15 @@ fn run_case(lay: MockLayout, ops: &[Op], distinct: bool) -> CaseResult {
             }
         } else {
             let g = generator.as_mut().unwrap();
+            let map_err = |m: String| {
+                if m.contains("filtered logits are empty") {
+                    "err=empty".to_string()
+                } else if m.contains("failed to run model") && m.contains("mock model failure") {
+                    "err=run".to_string()
+                } else {
+                    format!("err={}", m.replace(' ', "_"))
+                }
+            };
             let res = hcommon::catch(|| match op {
                 Op::W(_) => unreachable!(),
                 Op::A(p) => {
@@ -455,27 +575,18 @@ fn run_case(lay: MockLayout, ops: &[Op], distinct: bool) -> CaseResult {
                     g.clear_prompt();
                     "ok".to_string()
                 }
-                Op::P => match g.process_prompt() {
+                Op::P | Op::PF => match g.process_prompt() {
                     Ok(()) => "ok".to_string(),
-                    Err(e) => format!("err={}", e.to_string().replace(' ', "_")),
+                    Err(e) => map_err(e.to_string()),
                 },
-                Op::N(_) | Op::E => {
+                Op::N(_) | Op::E | Op::NF => {
                     if let Op::N(t) = op {
                         tok_cell.set(*t);
-                        remove_all.set(false);
-                    } else {
-                        remove_all.set(true);
                     }
+                    remove_all.set(matches!(op, Op::E));
                     match g.next() {
                         Some(Ok(t)) => format!("tok={t}"),
-                        Some(Err(e)) => {
-                            let m = e.to_string();
-                            if m.contains("filtered logits are empty") {
-                                "err=empty".to_string()
-                            } else {
-                                format!("err={}", m.replace(' ', "_"))
-                            }
-                        }
+                        Some(Err(e)) => map_err(e.to_string()),
                         None => "end".to_string(),
                     }
                 }
@@ -486,11 +597,12 @@ fn run_case(lay: MockLayout, ops: &[Op], distinct: bool) -> CaseResult {
                 Err(_) => "panic".to_string(),
             }
         };
+        mock.fail_next.set(false);
         let g = generator.as_ref().unwrap();
 
         // ---- canonical section from implementation observables only
         let log = mock.log.borrow();
-        let calls: Vec<String> = log[log_before..].iter().map(|c| show_call(&lay, c)).collect();
+        let calls: Vec<String> = log[log_before..].iter().map(|c| show_call(&mock, c)).collect();
         let calls_s = if calls.is_empty() { "-".to_string() } else { calls.join("+") };
         let seen_v = seen.borrow();
         let filt_s = if seen_v.len() > seen_before {
@@ -511,15 +623,27 @@ fn run_case(lay: MockLayout, ops: &[Op], distinct: bool) -> CaseResult {
         // ---- reference bookkeeping (from the script) and oracle
         let mut expect_call = false;
         match op {
-            Op::W(p) => rf.pend = p.iter().map(|t| (*t, true)).collect(),
+            Op::W(p) => {
+                rf.pend = p.iter().map(|t| (*t, true)).collect();
+                if opi > 0 {
+                    rf.discarded = true;
+                }
+            }
             Op::A(p) => rf.pend.extend(p.iter().map(|t| (*t, true))),
-            Op::C => rf.pend.clear(),
-            Op::P | Op::N(_) | Op::E => expect_call = true,
+            Op::C => {
+                rf.pend.clear();
+                rf.discarded = true;
+            }
+            Op::P | Op::N(_) | Op::E | Op::PF | Op::NF => expect_call = true,
         }
+        let expect_fail = matches!(op, Op::PF | Op::NF);
         let mut problems: Vec<String> = vec![];
         let new_calls = &log[log_before..];
         if expect_call != (new_calls.len() == 1) || new_calls.len() > 1 {
             problems.push(format!("T1 expected {} model call(s), saw {}", expect_call as u8, new_calls.len()));
+        }
+        if expect_fail != (outcome == "err=run") {
+            problems.push(format!("run failure scripted={expect_fail} but outcome {outcome}"));
         }
         for c in new_calls {
             if !c.problems.is_empty() {
@@ -544,26 +668,77 @@ fn run_case(lay: MockLayout, ops: &[Op], distinct: bool) -> CaseResult {
                     problems.push(format!("T1 attention mask covers {} positions, expected {}", n, start + c.toks.len()));
                 }
             }
+            if lay.kv && lay.enc && c.flag != Some((start != 0) as i32) {
+                problems.push(format!("use_cache_branch {:?} but first position is {}", c.flag, start));
+            }
             // T2: cache handed in == cache last returned, per slot, element for element
             if lay.kv {
-                for (slot, cin) in c.caches_in.iter().enumerate() {
-                    let want: CacheContent = last_out.as_ref().map(|o| o[slot].clone()).unwrap_or_default();
-                    match cin {
-                        Some(Ok(got)) if *got == want => {}
-                        Some(Ok(got)) => problems.push(format!(
-                            "T2 slot {slot}: cache passed in has {} entries {:?}, last returned {} entries {:?}",
-                            got.len(), got.first(), want.len(), want.first()
-                        )),
-                        Some(Err(e)) => problems.push(format!("T2 slot {slot}: malformed cache {e}")),
-                        None => problems.push(format!("T2 slot {slot}: no cache passed in")),
+                for (si, slot) in mock.slots.iter().enumerate() {
+                    let cin = &c.caches_in[si];
+                    if slot.encoder {
+                        let want: CacheContent = last_enc_out.as_ref().map(|o| o[si].clone()).unwrap_or_default();
+                        match cin {
+                            Some(Ok(got)) if *got == want => {}
+                            other => problems.push(format!(
+                                "T2 encoder slot {si}: passed {:?} entries, last non-empty returned {} entries",
+                                other.as_ref().map(|r| r.as_ref().map(|g| g.len())),
+                                want.len()
+                            )),
+                        }
+                        continue;
                     }
-                    if let Some(Ok(got)) = cin {
-                        if got.len() != rf.fed_total {
-                            problems.push(format!("T2 slot {slot}: cache length {} but {} tokens fed so far", got.len(), rf.fed_total));
+                    match rf.cache_len {
+                        None => {
+                            // documented behaviour after a failed run: no tensor supplied
+                            if cin.is_some() {
+                                problems.push(format!("slot {si}: a cache tensor is supplied although the previous run failed and consumed it"));
+                            }
+                        }
+                        Some(len) => {
+                            let want: CacheContent = if rf.had_failure && last_out.is_none() {
+                                vec![]
+                            } else {
+                                last_out.as_ref().map(|o| o[si].clone()).unwrap_or_default()
+                            };
+                            match cin {
+                                Some(Ok(got)) if *got == want => {}
+                                Some(Ok(got)) => problems.push(format!(
+                                    "T2 slot {si}: cache passed in has {} entries {:?}, last returned {} entries {:?}",
+                                    got.len(), got.first(), want.len(), want.first()
+                                )),
+                                Some(Err(e)) => problems.push(format!("T2 slot {si}: malformed cache {e}")),
+                                None => problems.push(format!("T2 slot {si}: no cache passed in")),
+                            }
+                            if let Some(Ok(got)) = cin {
+                                if got.len() != len {
+                                    problems.push(format!("T2 slot {si}: cache length {} expected {}", got.len(), len));
+                                }
+                                if !rf.had_failure && got.len() != rf.fed_total {
+                                    problems.push(format!("T2 slot {si}: cache length {} but {} tokens fed so far", got.len(), rf.fed_total));
+                                }
+                            }
                         }
                     }
                 }
+            }
+            if !c.ok {
+                // failed run: everything stays pending, nothing recorded, caches gone
+                rf.had_failure = true;
+                if lay.kv {
+                    rf.cache_len = None;
+                    last_out = None;
+                }
+                continue;
+            }
+            if lay.kv {
+                if rf.cache_len.is_none() {
+                    recovered = true;
+                }
+                rf.cache_len = Some(rf.cache_len.unwrap_or(0) + c.toks.len());
                 last_out = Some(c.caches_out.clone());
+                if c.caches_out.iter().zip(mock.slots.iter()).any(|(o, s)| s.encoder && !o.is_empty()) {
+                    last_enc_out = Some(c.caches_out.clone());
+                }
             }
             // observed events
             for t in &c.toks {
@@ -582,6 +757,19 @@ fn run_case(lay: MockLayout, ops: &[Op], distinct: bool) -> CaseResult {
                 for p in rf.pend.iter_mut() {
                     p.1 = false;
                 }
+                // T7: a model without KV cache is fed the whole recorded history again
+                if !rf.discarded {
+                    let recorded: &[u32] = match seen_v.get(seen_before) {
+                        Some(f) => f.as_slice(),
+                        None => {
+                            let p = g.prev_tokens();
+                            if outcome.starts_with("tok=") { &p[..p.len() - 1] } else { p }
+                        }
+                    };
+                    if c.toks.as_slice() != recorded {
+                        problems.push(format!("T7 no-KV call fed [{}] but recorded history is [{}]", csv(&c.toks), csv(recorded)));
+                    }
+                }
             }
         }
         if let Some(t) = outcome.strip_prefix("tok=") {
@@ -595,16 +783,16 @@ fn run_case(lay: MockLayout, ops: &[Op], distinct: bool) -> CaseResult {
             rf.hist.push(t);
             rf.pend.push((t, false));
         }
-        if outcome.starts_with("err=") && outcome != "err=empty" {
+        if outcome.starts_with("err=") && outcome != "err=empty" && outcome != "err=run" {
             problems.push(format!("unexpected error {outcome}"));
         }
-        // T1 (KV): nothing remains pending after a run; pending == reference
+        // T1: nothing remains pending after a successful run; pending == reference
         let pend_now: Vec<u32> = rf.pend.iter().map(|x| x.0).collect();
         if g.prompt() != pend_now.as_slice() {
             problems.push(format!("T1 pending tokens [{}] expected [{}]", csv(g.prompt()), csv(&pend_now)));
         }
-        if lay.kv && g.kv_cache_len() != Some(rf.fed_total) {
-            problems.push(format!("T2 kv_cache_len {:?} but {} tokens fed", g.kv_cache_len(), rf.fed_total));
+        if lay.kv && g.kv_cache_len() != rf.cache_len {
+            problems.push(format!("T2 kv_cache_len {:?} expected {:?}", g.kv_cache_len(), rf.cache_len));
         }
         // T3
         if g.prev_tokens() != rf.hist.as_slice() {
@@ -620,12 +808,11 @@ fn run_case(lay: MockLayout, ops: &[Op], distinct: bool) -> CaseResult {
                 csv(&first_seen)
             ));
         }
-        // the filter must see the history up to (not including) the token being sampled
         if fail.is_none() && !problems.is_empty() {
             fail = Some(format!("after op {} ({}): {}", opi + 1, op.show(), problems.join("; ")));
         }
     }
-    CaseResult { answer: sections.join(" | "), fail }
+    CaseResult { answer: sections.join(" | "), fail, observed_failure_recovery: recovered }
 }
 
 fn gen_tokens(rng: &mut Rng, pool: &mut Vec<u32>, distinct: bool, n: usize) -> Vec<u32> {
@@ -642,7 +829,7 @@ fn gen_tokens(rng: &mut Rng, pool: &mut Vec<u32>, distinct: bool, n: usize) -> V
         .collect()
 }
 
-fn gen_history(rng: &mut Rng, distinct: bool, max_len: usize) -> Vec<Op> {
+fn gen_history(rng: &mut Rng, distinct: bool, max_len: usize, failures: bool) -> Vec<Op> {
     let mut pool: Vec<u32> = (1..=400).collect();
     rng.shuffle(&mut pool);
     let len = 1 + rng.usize_below(max_len);
@@ -653,6 +840,8 @@ fn gen_history(rng: &mut Rng, distinct: bool, max_len: usize) -> Vec<Op> {
         let op = if i == 0 && rng.chance(3, 4) {
             let n = rng.usize_below(5);
             Op::W(gen_tokens(rng, &mut pool, distinct, n))
+        } else if failures && rng.chance(1, 9) {
+            if rng.chance(1, 2) { Op::PF } else { Op::NF }
         } else {
             let (pn, pa, pp, pc, pe) = match style {
                 0 => (45, 30, 8, 6, 5),
@@ -683,7 +872,8 @@ fn gen_history(rng: &mut Rng, distinct: bool, max_len: usize) -> Vec<Op> {
 
 fn gen_layout(rng: &mut Rng) -> MockLayout {
     let kv = rng.chance(3, 4);
-    let dims4 = rng.chance(1, 2);
+    let enc = kv && rng.chance(1, 3);
+    let dims4 = enc || rng.chance(1, 2);
     MockLayout {
         kv,
         layers: 1 + rng.usize_below(2),
@@ -692,6 +882,7 @@ fn gen_layout(rng: &mut Rng) -> MockLayout {
         cap: if rng.chance(1, 2) { None } else { Some(rng.usize_below(48)) },
         has_attn: rng.chance(4, 5),
         has_cache_pos: rng.chance(4, 5),
+        enc,
     }
 }
 
@@ -704,10 +895,13 @@ fn one(out: &mut Out, lay: MockLayout, ops: &[Op], distinct: bool) {
     );
     let res = match hcommon::catch(|| run_case(lay, ops, distinct)) {
         Ok(r) => r,
-        Err(m) => CaseResult { answer: format!("harness-panic {m}"), fail: None },
+        Err(m) => CaseResult { answer: format!("harness-panic {m}"), fail: None, observed_failure_recovery: false },
     };
     // distribution
     out.bucket(if lay.kv { "model_with_kv_cache" } else { "model_without_kv_cache" });
+    if lay.enc {
+        out.bucket("model_with_encoder_caches");
+    }
     out.bucket(&format!("ops_{:02}-{:02}", (ops.len() - 1) / 5 * 5 + 1, (ops.len() - 1) / 5 * 5 + 5));
     let first_n = ops.iter().position(|o| matches!(o, Op::N(_)));
     let chat = first_n
@@ -725,6 +919,15 @@ fn one(out: &mut Out, lay: MockLayout, ops: &[Op], distinct: bool) {
     if ops.iter().any(|o| matches!(o, Op::E)) {
         out.bucket("has_empty_filter_error");
     }
+    if ops.iter().any(|o| matches!(o, Op::PF | Op::NF)) {
+        out.bucket("has_failing_model_run");
+    }
+    if res.observed_failure_recovery {
+        out.bucket("successful_run_after_failed_run_without_cache");
+    }
+    if !lay.kv && !ops.iter().any(|o| matches!(o, Op::C)) && !ops.iter().skip(1).any(|o| matches!(o, Op::W(_))) {
+        out.bucket("no_kv_refeed_checked");
+    }
     if res.answer.contains(" panic ") {
         out.bucket("next_with_nothing_pending_panics");
     }
@@ -734,6 +937,35 @@ fn one(out: &mut Out, lay: MockLayout, ops: &[Op], distinct: bool) {
     out.case(&req, &res.answer, res.fail.as_deref(), chat);
 }
 
+/// Names of the `pub fn`s in `impl<'a> Generator<'a>` plus the `Iterator::next` impl.
+fn generator_api(src: &str) -> Vec<String> {
+    let mut names = vec![];
+    let mut in_impl = false;
+    let mut in_iter = false;
+    for line in src.lines() {
+        if line.starts_with("impl") {
+            in_impl = line.starts_with("impl<'a> Generator<'a>") || line.starts_with("impl Generator");
+            in_iter = line.starts_with("impl Iterator for Generator") || line.starts_with("impl<'a> Iterator for Generator");
+            continue;
+        }
+        if line.starts_with('}') {
+            in_impl = false;
+            in_iter = false;
+            continue;
+        }
+        let t = line.trim_start();
+        let name_of = |rest: &str| rest.split(|c: char| !(c.is_alphanumeric() || c == '_')).next().unwrap_or("").to_string();
+        if in_impl && line.starts_with("    pub fn ") {
+            names.push(name_of(&t["pub fn ".len()..]));
+        }
+        if in_iter && line.starts_with("    fn ") {
+            names.push(name_of(&t["fn ".len()..]));
+        }
+    }
+    names.sort();
+    names
+}
+
 fn main() {
     let args = hcommon::parse_args();
     hcommon::quiet_panics();
@@ -741,13 +973,27 @@ fn main() {
 }
 
 fn lay0(kv: bool) -> MockLayout {
-    MockLayout { kv, layers: 1, dims4: true, heads: 1, cap: None, has_attn: true, has_cache_pos: true }
+    MockLayout { kv, layers: 1, dims4: true, heads: 1, cap: None, has_attn: true, has_cache_pos: true, enc: false }
+}
+
+fn lay_enc() -> MockLayout {
+    MockLayout { kv: true, layers: 1, dims4: true, heads: 2, cap: None, has_attn: true, has_cache_pos: true, enc: true }
 }
 
 fn run(args: &Args) {
     let mut out = Out::new(&args.out);
     let mut rng = Rng::new(args.seed);
-    // (a) directed histories: prompt-then-generate, chat style, clears, empty prompts.
+    // (0) API coverage: the public methods of Generator in the source under test
+    let repo = std::env::var("VERIF_REPO").unwrap_or("/repo".into());
+    match std::fs::read_to_string(format!("{repo}/rten-generate/src/generator.rs")) {
+        Ok(src) => {
+            let names = generator_api(&src);
+            out.bucket("api_coverage_request");
+            out.case(&format!("api {}", names.join(" ")), "api-ok", None, false);
+        }
+        Err(e) => out.note(&format!("api coverage: cannot read generator.rs under {repo}: {e}")),
+    }
+    // (a) directed histories: prompt-then-generate, chat style, clears, empty prompts, failures.
     let directed: Vec<Vec<Op>> = vec![
         vec![Op::W(vec![1, 2, 3]), Op::N(4), Op::N(5), Op::N(6)],
         vec![Op::W(vec![1]), Op::N(5), Op::A(vec![7]), Op::N(6)],
@@ -759,28 +1005,35 @@ fn run(args: &Args) {
         vec![Op::W(vec![1]), Op::E, Op::A(vec![2]), Op::N(3)],
         vec![Op::A(vec![1, 2]), Op::N(3), Op::W(vec![4, 5]), Op::N(6), Op::N(7)],
         vec![Op::W(vec![1, 2]), Op::N(3), Op::N(4), Op::C, Op::N(5)],
+        vec![Op::W(vec![1]), Op::P, Op::A(vec![2]), Op::PF, Op::P],
+        vec![Op::W(vec![1, 2]), Op::NF, Op::N(3), Op::N(4)],
+        vec![Op::W(vec![1, 2]), Op::N(3), Op::NF, Op::NF, Op::A(vec![4]), Op::N(5), Op::N(6)],
+        vec![Op::PF, Op::W(vec![5]), Op::N(6), Op::PF, Op::C, Op::A(vec![7]), Op::N(8)],
     ];
     for ops in &directed {
-        for kv in [true, false] {
-            one(&mut out, lay0(kv), ops, true);
+        for lay in [lay0(true), lay0(false), lay_enc()] {
+            one(&mut out, lay, ops, true);
         }
     }
     // (b) exhaustive short histories over a small alphabet (distinct token values by position)
     let alphabet = |i: usize| -> Vec<Op> {
         let b = 10 * (i as u32 + 1);
-        vec![Op::W(vec![b, b + 1]), Op::A(vec![b + 2]), Op::C, Op::P, Op::N(b + 3), Op::E]
+        vec![Op::W(vec![b, b + 1]), Op::A(vec![b + 2]), Op::C, Op::P, Op::N(b + 3), Op::E, Op::PF, Op::NF]
     };
     let depth = if args.thorough { 5 } else { 4 };
     for d in 1..=depth {
-        let total = 6usize.pow(d as u32);
+        let total = 8usize.pow(d as u32);
         for mut code in 0..total {
             let mut ops = vec![];
             for i in 0..d {
-                ops.push(alphabet(i)[code % 6].clone());
-                code /= 6;
+                ops.push(alphabet(i)[code % 8].clone());
+                code /= 8;
             }
-            for kv in [true, false] {
-                one(&mut out, lay0(kv), &ops, true);
+            for lay in [lay0(true), lay0(false)] {
+                one(&mut out, lay, &ops, true);
+            }
+            if d <= 3 || args.thorough {
+                one(&mut out, lay_enc(), &ops, true);
             }
         }
     }
@@ -789,9 +1042,11 @@ fn run(args: &Args) {
     for _ in 0..n {
         let lay = gen_layout(&mut rng);
         let distinct = rng.chance(2, 3);
-        let ops = gen_history(&mut rng, distinct, 30);
+        let failures = rng.chance(1, 3);
+        let ops = gen_history(&mut rng, distinct, 30, failures);
         one(&mut out, lay, &ops, distinct);
     }
     out.note("token values: 2/3 of random histories use pairwise distinct token ids (T3 also checked as order of first occurrence in the mock's I/O); the rest use ids 0..4 and u32 boundary values");
-    out.finish("history ops W/A/C/P/N/E, length 1..=30; mock Model with/without KV-cache inputs, 1-2 layers, 3- and 4-dim caches, optional attention_mask/cache_position inputs, kv_cache_capacity None/0..47");
+    out.note("1/3 of random histories contain failing Model::run calls (each op fails with probability 1/9); 1/4 of layouts have no KV cache, 1/4 are encoder-decoder (cross-attention caches + use_cache_branch)");
+    out.finish("history ops W/A/C/P/N/E/PF/NF, length 1..=30; mock Model with/without KV-cache inputs, decoder-only and merged encoder-decoder layouts, 1-2 layers, 3- and 4-dim caches, optional attention_mask/cache_position inputs, kv_cache_capacity None/0..47");
 }
